@@ -62,7 +62,7 @@ fn schema_string(ds: &Dataset) -> String {
 }
 
 pub async fn index_list(ds: &Dataset) -> Result<(Vec<String>, Vec<String>), String> {
-    let idx = ds.load_indices().await.map_err(|e| e.to_string())?;
+    let idx = crate::walker::guard(async { ds.load_indices().await.map_err(|e| e.to_string()) }).await?;
     let mut v: Vec<String> = idx
         .iter()
         .map(|i| {
